@@ -17,10 +17,11 @@ pub(crate) const MAXK: usize = crossbeam_skiplist::MAXKEYS;
 const WB: usize = st3::fifo::MAXCAP; // st3 shim ring size
 const IB: usize = crossbeam_deque::MAXQ;
 
-fn any_worker(max: usize) -> Worker<It> {
-    let w = Worker::new(CAP);
+fn any_worker(max: usize) -> Worker<It> { any_worker_cap(CAP, max) }
+fn any_worker_cap(cap: usize, max: usize) -> Worker<It> {
+    let w = Worker::new(cap);
     let n: usize = kani::any();
-    kani::assume(n <= max && n <= CAP);
+    kani::assume(n <= max && n <= cap);
     let h: usize = kani::any();
     kani::assume(h < WB);
     let i = w.inner();
@@ -62,6 +63,11 @@ impl LSlots {
         let (a, b) = any_keys();
         LSlots(if kani::any() { Some((a, any_worker(max_items))) } else { None }, if kani::any() { Some((b, any_worker(max_items))) } else { None }, None)
     }
+    /// the same with workers of capacity `cap` holding up to `cap` items each
+    pub(crate) fn any_cap(cap: usize) -> Self {
+        let (a, b) = any_keys();
+        LSlots(if kani::any() { Some((a, any_worker_cap(cap, cap))) } else { None }, if kani::any() { Some((b, any_worker_cap(cap, cap))) } else { None }, None)
+    }
     pub(crate) fn map(&mut self) -> SkipMap<c_longlong, Worker<It>> { unsafe { SkipMap::from_slots(&raw mut self.0, &raw mut self.1, &raw mut self.2) } }
 }
 impl GSlots {
@@ -90,6 +96,13 @@ pub(crate) fn g_items(m: &SkipMap<c_longlong, Injector<It>>) -> usize {
     let mut j = 0;
     while j < MAXK { if let Some((_, q)) = m.slot(j) { n += i_len(q); } j += 1; }
     n
+}
+/// Inv (bucket clause): every priority bucket of a local queue can hold the whole local capacity - otherwise a push
+/// below the capacity overflows to the shared queue and a less urgent local item is served before it
+pub(crate) fn l_buckets_have_capacity(m: &SkipMap<c_longlong, Worker<It>>, cap: usize) -> bool {
+    let mut j = 0;
+    while j < MAXK { if let Some((_, w)) = m.slot(j) { if w.capacity() < cap { return false; } } j += 1; }
+    true
 }
 /// occurrences of item value x (conservation is stated as: for every x, the count is preserved)
 pub(crate) fn l_count(m: &SkipMap<c_longlong, Worker<It>>, x: It) -> usize {
@@ -161,12 +174,13 @@ pub(crate) fn g_back_at(m: &SkipMap<c_longlong, Injector<It>>, p: c_longlong) ->
 }
 
 /// the shared queue object, built field by field (OrderedWorkStealQueue::new + local_queue() is what made CBMC explode)
-pub(crate) fn mk_shared(shared: SkipMap<c_longlong, Injector<It>>, l0: SkipMap<c_longlong, Worker<It>>, l1: SkipMap<c_longlong, Worker<It>>) -> OrderedWorkStealQueue<It> {
+pub(crate) fn mk_shared(shared: SkipMap<c_longlong, Injector<It>>, l0: SkipMap<c_longlong, Worker<It>>, l1: SkipMap<c_longlong, Worker<It>>) -> OrderedWorkStealQueue<It> { mk_shared_cap(CAP, shared, l0, l1) }
+pub(crate) fn mk_shared_cap(cap: usize, shared: SkipMap<c_longlong, Injector<It>>, l0: SkipMap<c_longlong, Worker<It>>, l1: SkipMap<c_longlong, Worker<It>>) -> OrderedWorkStealQueue<It> {
     let n = g_items(&shared);
     let mut v = VecDeque::with_capacity(2);
     v.push_back(l0);
     v.push_back(l1);
-    OrderedWorkStealQueue { shared_queue: shared, len: AtomicUsize::new(n), local_capacity: CAP, local_queues: v, index: AtomicUsize::new(0) }
+    OrderedWorkStealQueue { shared_queue: shared, len: AtomicUsize::new(n), local_capacity: cap, local_queues: v, index: AtomicUsize::new(0) }
 }
 
 pub(crate) fn mk_local<'l>(q: &'l OrderedWorkStealQueue<It>, idx: usize, believed: usize, tick: u32) -> OrderedLocalQueue<'l, It> {
@@ -260,6 +274,7 @@ fn idle_pop_finds_work(start: usize) {
         kani::assert(l_items(a.queue) + l_items(sib) + 1 == total, "C03.steal_neither_loses_nor_duplicates_an_item");
         kani::assert(l_count_at(a.queue, k, x) + l_count_at(sib, k, x) + (if k == sp && fv == x { 1 } else { 0 }) == at_k, "C05.items_keep_their_priority");
         kani::assert(a.local_len() >= l_items(a.queue), "C04.local_counter_never_below_content");
+        kani::assert(l_buckets_have_capacity(a.queue, CAP), "C05.every_bucket_can_hold_the_local_capacity");
     } else {
         kani::assert(r == sv, "C06.idle_local_queue_falls_back_to_the_shared_queue");
         kani::assert(l_count(a.queue, x) + l_count(sib, x) == total_x && l_items(a.queue) + l_items(sib) == total, "C03.steal_neither_loses_nor_duplicates_an_item");
@@ -276,18 +291,20 @@ fn idle_pop_finds_work(start: usize) {
 /// the new item behind its equals (O5), hands whatever overflows to the shared queue under its own priority (O5)
 /// and leaves the counter as Inv_reach demands. The shared queue's push is represented by its contract (proved in
 /// q_ordered_shared_push_pop: appends under the given priority and counts): here it records what it is handed.
+/// capacity of the push unit: 4 (a stale counter with SOME items left, fewer than half, needs more than capacity 2)
+pub(crate) const PCAP: usize = 4;
 #[kani::proof]
-#[kani::unwind(5)]
+#[kani::unwind(7)]
 #[kani::stub(OrderedWorkStealQueue::push_with_priority, mirror::MS::push_with_priority)]
 fn q_ordered_local_push() {
-    let (mut gs, mut s0, mut s1) = (GSlots::empty(), LSlots::any(2), LSlots::empty());
+    let (mut gs, mut s0, mut s1) = (GSlots::empty(), LSlots::any_cap(PCAP), LSlots::empty());
     let l0 = s0.map();
     let x: It = kani::any();
     let k: c_longlong = kani::any(); // witness priority: every item keeps its key
     let (total_x, content, at_k, lf) = (l_count(&l0, x), l_items(&l0), l_count_at(&l0, k, x), l_front(&l0));
-    let q = mk_shared(gs.map(), l0, s1.map());
+    let q = mk_shared_cap(PCAP, gs.map(), l0, s1.map());
     let believed: usize = kani::any();
-    kani::assume(believed >= content && believed <= CAP);
+    kani::assume(content <= PCAP && believed >= content && believed <= PCAP);
     let a = mk_local(&q, 0, believed, 0);
     let p: c_longlong = kani::any();
     let v: It = kani::any();
@@ -297,17 +314,19 @@ fn q_ordered_local_push() {
     kani::assert(l_items(a.queue) + hn == content + 1, "C03.push_adds_exactly_one_item");
     kani::assert(l_count(a.queue, x) + hx == total_x + (if v == x { 1 } else { 0 }), "C03.push_neither_loses_nor_duplicates_an_item");
     kani::assert(l_count_at(a.queue, k, x) + hk == at_k + (if k == p && v == x { 1 } else { 0 }), "C05.items_keep_their_priority");
-    kani::assert(a.local_len() >= l_items(a.queue) && a.local_len() <= CAP, "C04.local_counter_never_below_content");
+    kani::assert(a.local_len() >= l_items(a.queue) && a.local_len() <= PCAP, "C04.local_counter_never_below_content");
+    kani::assert(l_buckets_have_capacity(a.queue, PCAP), "C05.every_bucket_can_hold_the_local_capacity");
     // the new item is the newest of its priority in the queue it went to
     let last = unsafe { if hn > 0 { Some(HANDED[hn - 1]) } else { None } };
     kani::assert(l_back_at(a.queue, p) == Some(v) || last == Some((p, v)), "C05.push_appends_behind_its_equals");
-    if believed < CAP {
+    if believed < PCAP {
         kani::assert(hn == 0, "C05.no_overflow_below_capacity");
         if let Some((fp, fv)) = lf { kani::assert(l_front(a.queue) == Some(if p < fp { (p, v) } else { (fp, fv) }), "C05.push_does_not_reorder_waiting_items"); }
     }
-    kani::cover!(believed == CAP && content == CAP, "C05.cover_overflow_with_full_queue");
-    kani::cover!(believed == CAP && content == 0, "C04.cover_stale_counter_on_push");
-    kani::cover!(believed < CAP, "C05.cover_plain_push");
+    kani::cover!(believed == PCAP && content == PCAP, "C05.cover_overflow_with_full_queue");
+    kani::cover!(believed == PCAP && content == 0, "C04.cover_stale_counter_on_push");
+    kani::cover!(believed < PCAP, "C05.cover_plain_push");
+    kani::cover!(believed == PCAP && content == 1 && hn == 2, "C04.cover_stale_counter_with_one_item_left");
     std::mem::forget(a);
     std::mem::forget(q);
 }
